@@ -397,6 +397,64 @@ def run_system(sysd, idx, rng, tier, out):
                 out["oracle_failures"].append({"property": "C12", "also": ["C10"], "signature": "repeat-call-differs",
                                                "what": "second identical call differs (state or caches leaked)",
                                                "system": sysd, "x": x, "mode": mode, "first": real, "second": real2})
+    # the same type system assembled by typeset arithmetic (one type at a time in a random order, as the sum of two halves,
+    # with a type removed and added back) must be the same typeset: same relation graph, same answers
+    order_ = list(tl[1:])
+    rng.shuffle(order_)
+    half = len(order_) // 2
+    variants = []
+
+    def closed_under_parents(sub):
+        return all(i == 0 or types[sysd["parent"][i]] in sub for i in range(sysd["n"] + 1) if types[i] in sub)
+    try:
+        with warnings.catch_warnings():
+            warnings.simplefilter("ignore")
+            inc = VisionsTypeset({Generic})
+            for t_ in order_:
+                inc = inc + t_
+            variants.append(("one type at a time", inc))
+            A_ = {Generic} | set(order_[:half])
+            B_ = {Generic} | set(order_[half:])
+            variants.append(("sum of two typesets", VisionsTypeset(A_) + VisionsTypeset(B_)))
+            inc2 = VisionsTypeset({Generic})
+            for t_ in order_:
+                inc2 += t_
+            variants.append(("grown in place", inc2))
+            if order_:
+                variants.append(("removed and added back", (ts - order_[0]) + order_[0]))
+    except Exception:  # noqa  (non-parent-closed intermediate results may legitimately raise)
+        pass
+    eref = sorted((str(a), str(b), bool(d["relationship"].inferential)) for a, b, d in ts.relation_graph.edges(data=True))
+    for vname, ts2 in variants:
+        if set(ts2.types) != set(ts.types):
+            continue
+        e2 = sorted((str(a), str(b), bool(d["relationship"].inferential)) for a, b, d in ts2.relation_graph.edges(data=True))
+        if e2 != eref:
+            out["oracle_failures"].append({"property": "C12", "also": ["C13", "C14", "C15"], "signature": "assembled-typeset-graph-differs",
+                                           "what": "user type system %s: relation graph differs from direct construction; missing %s, extra %s"
+                                                   % (vname, [e for e in eref if e not in e2][:3], [e for e in e2 if e not in eref][:3]),
+                                           "system": sysd})
+        if e2 != eref:
+            # a datum the directly constructed typeset types through a relation the assembled one lacks
+            missing = [(a, b) for a, b, _ in eref if (a, b) not in [(c, d) for c, d, _ in e2]]
+            found = False
+            for x in range(sysd["m"]):
+                seq = enc(kind, x)
+                for mode in ("infer", "detect"):
+                    r1 = observe((lambda: ts.infer(seq)) if mode == "infer" else (lambda: ts.detect(seq)))
+                    r2 = observe((lambda: ts2.infer(seq)) if mode == "infer" else (lambda: ts2.detect(seq)))
+                    if "err" in r1 or "err" in r2:
+                        continue
+                    hops1 = list(zip(r1["path"], r1["path"][1:]))
+                    if any(h in missing for h in hops1) and r1["path"] != r2["path"]:
+                        out["oracle_failures"].append({"property": "C12", "also": ["C13", "C15"], "signature": "assembled-typeset-answers-differently",
+                                                       "what": "user type system %s: %s gives path %s / data %s; the directly constructed typeset follows the declared relation "
+                                                               "%s and gives %s / %s" % (vname, mode, r2["path"], r2["x"], [h for h in hops1 if h in missing][0], r1["path"], r1["x"]),
+                                                       "system": sysd, "x": x, "mode": mode})
+                        found = True
+                        break
+                if found:
+                    break
     # frames and sampling for Series dispatch
     if kind == "series":
         ncols = rng.randint(0, 4)
